@@ -224,8 +224,14 @@ bool ossOperationsFacet::SaveOperationResult(
 ) {
   auto& opHandle = operations.at(pid);
   assert(opHandle != nullptr);
-  const auto guard = core.DndGuard();
-  if (!core.Src().InputData(pid, std::move(opResult.value))) {
+  const auto oldCoreHash = core.Src()(pid)->coreHash;
+  bool isSaved{ false };
+  {
+    // Note: do not react to own write until children parameters are updated
+    const auto guard = core.DndGuard();
+    isSaved = core.Src().InputData(pid, std::move(opResult.value));
+  }
+  if (!isSaved) {
     opHandle->broken = true;
     return false;
   } else {
@@ -235,6 +241,9 @@ bool ossOperationsFacet::SaveOperationResult(
     for (const auto& child : core.Graph().ChildrenOf(pid)) {
       const auto index = core.Graph().ParentIndex(pid, child).value(); // NOLINT(bugprone-unchecked-optional-access)
       UpdateChild(child, index, old2New);
+    }
+    if (core.Src()(pid)->coreHash != oldCoreHash) {
+      core.OnCoreChange(pid); // Note: change of the result was not observed under guard
     }
     return true;
   }
